@@ -90,6 +90,8 @@ type scenario struct {
 	reuse    bool
 	keptSize uint
 	kindsOf  map[int][]fx.Kind // per trace index; nil = kinds
+	// noMerge = seqx NoMergeDepth: every history of length <= noMerge+1 is executed whatever the canonical key says
+	noMerge int
 }
 
 type hint struct {
@@ -514,11 +516,18 @@ func main() {
 					if sd != 0 && tt != 0 {
 						depth = ev.Pick(r, 6, 7)
 					}
+					// every history of length <= 4 (quick) is executed unmerged; length <= 5 where the alphabet is small
+					// enough (no SpanEvent kind) in the all-non-default configurations, and everywhere in the thorough tier
+					noMerge := ev.Pick(r, 3, 4)
+					if sd != 0 && tt != 0 && sl == 0 {
+						noMerge = 4
+					}
 					scs = append(scs, &scenario{
 						name:    fmt.Sprintf("SendDelay=%v,TraceTimeout=%v,SpanLimit=%d,MaxExpiredTraces=%d", sd, tt, sl, mx),
 						tc:      config.TracesConfig{SendDelay: config.Duration(sd), TraceTimeout: config.Duration(tt), SpanLimit: sl, MaxExpiredTraces: mx, SendTicker: config.Duration(100 * time.Millisecond)},
 						workers: 1, ids: ids1, kinds: kinds, sampler: det(1), keepAll: true, depth: depth, maxSpans: 3,
 						fixedAdv: ev.Pick(r, []time.Duration(nil), []time.Duration{300 * time.Millisecond}),
+						noMerge:  noMerge,
 					})
 				}
 			}
@@ -528,14 +537,14 @@ func main() {
 	// two workers (MaxExpiredTraces applies to each worker's own tick) and a sampler that drops one trace
 	scs = append(scs, &scenario{name: "2workers,det2,SendDelay=1s,TraceTimeout=5s,SpanLimit=2,MaxExpiredTraces=1",
 		tc:      config.TracesConfig{SendDelay: config.Duration(time.Second), TraceTimeout: config.Duration(5 * time.Second), SpanLimit: 2, MaxExpiredTraces: 1, SendTicker: config.Duration(100 * time.Millisecond)},
-		workers: 2, ids: ids2, kinds: []fx.Kind{fx.Root, fx.Child}, sampler: det(2), keepAll: false, depth: depth, maxSpans: 3})
+		workers: 2, ids: ids2, kinds: []fx.Kind{fx.Root, fx.Child}, sampler: det(2), keepAll: false, depth: depth, maxSpans: 3, noMerge: 4})
 	// ejection, then the same trace ID again: with a kept-decision cache of one entry the record of an ejected
 	// trace is pushed out by the next kept decision, so a later span starts a new fragment of that trace, whose
 	// deadline is TraceTimeout after ITS first span (nothing of the ejected fragment may survive in the timing state)
 	scs = append(scs, &scenario{name: "reuse-after-ejection,SendDelay=1s,TraceTimeout=5s,KeptSize=1",
 		tc:      config.TracesConfig{SendDelay: config.Duration(time.Second), TraceTimeout: config.Duration(5 * time.Second), SendTicker: config.Duration(100 * time.Millisecond)},
 		workers: 1, ids: []string{ids1[0], ids1[2]}, kinds: []fx.Kind{fx.Child}, kindsOf: map[int][]fx.Kind{1: {fx.Root}}, sampler: det(1), keepAll: true,
-		depth: ev.Pick(r, 9, 10), maxSpans: 3, reuse: true, keptSize: 1})
+		depth: ev.Pick(r, 9, 10), maxSpans: 3, reuse: true, keptSize: 1, noMerge: 4})
 	if only := os.Getenv("VERIF_SCENARIO"); only != "" {
 		var fl []*scenario
 		for _, s := range scs {
@@ -553,6 +562,7 @@ func main() {
 			Name: s.name, Enabled: s.enabled,
 			Exec:     func(h []event) (string, string, *seqx.Failure) { return s.exec(r, h) },
 			MaxDepth: s.depth, Workers: 16,
+			NoMergeDepth: s.noMerge,
 		})
 		bounds[s.name] = map[string]any{"depth_bound": s.depth, "depth_completed": st.DepthCompleted, "states": st.States, "transitions": st.Transitions,
 			"traces": s.ids, "kinds": fmt.Sprint(s.kinds), "workers": s.workers, "wall_s": time.Since(t).Seconds()}
